@@ -53,7 +53,8 @@ Proof.
     destruct (report_bug g x) as [[c r] x']. destruct r, c; simpl; split; discriminate.
   - split; [|discriminate]. intros H. exfalso.
     destruct (c_res (cand_at cands i)); simpl in H; try discriminate.
-    + destruct (giveup_tail_cases (match g_also g with Some a => if (c_exit (cand_at cands i) =? a)%Z then save_extra g (add_failure x) else add_failure x | None => add_failure x end) i) as [[E _]|[[E|E] _]]; rewrite E in H; discriminate.
+    + match type of H with context [giveup_tail g ?y i] =>
+        destruct (giveup_tail_cases y i) as [[E _]|[[E|E] _]]; rewrite E in H; discriminate end.
     + destruct (giveup_tail_cases (add_failure x) i) as [[E _]|[[E|E] _]]; rewrite E in H; discriminate.
     + destruct (g_silent g); simpl in H.
       * destruct (giveup_tail_cases (add_failure x) i) as [[E _]|[[E|E] _]]; rewrite E in H; discriminate.
@@ -106,13 +107,13 @@ Qed.
 Theorem cround_win_success sch x w :
   r_win _ (cround g cands sch x) = Some w ->
   c_res (cand_at cands w) = OK /\ c_exit (cand_at cands w) = 0%Z /\ c_timeout (cand_at cands w) = false /\
-  c_changed (cand_at cands w) = true /\ too_large g (cand_at cands w) = false.
+  c_changed (cand_at cands w) = true /\ too_large g (cand_at cands w) = false /\ c_norun (cand_at cands w) = false.
 Proof.
   intros H. apply (round_win_isA xst chk tmo (on_timeout g) (g_N g) (length cands) isA mayQ chk_A isA_notmo) in H.
   unfold Outcome.isA, success in H. rewrite !andb_true_iff, !negb_true_iff in H.
-  destruct H as (((T & (R & E)) & L) & C).
+  destruct H as (((T & ((R & E) & NRn)) & L) & C).
   destruct (c_res (cand_at cands w)); simpl in R; try discriminate.
-  apply Z.eqb_eq in E. auto.
+  apply Z.eqb_eq in E. auto 10.
 Qed.
 
 (* C02 at the level of check_pass_result *)
